@@ -19,7 +19,9 @@ import errno
 import io
 import logging
 import os
+import random
 import sys
+import tempfile
 import gc
 import threading
 import time
@@ -57,6 +59,20 @@ def is_mutating_op(op):
     if op.startswith("osopen:"):
         return "T" in op[7:] or "C" in op[7:]
     return False
+
+
+class _SeededNames:
+    """Replacement for tempfile's random name sequence: names are a function
+    of the sandbox and a counter, so that traces do not depend on os.urandom."""
+
+    def __init__(self, salt):
+        self.rng = random.Random(os.path.basename(salt))
+
+    def __iter__(self):
+        return self
+
+    def __next__(self):
+        return "".join(self.rng.choices("abcdefghijklmnopqrstuvwxyz0123456789_", k=8))
 
 
 class SimCrash(BaseException):
@@ -442,6 +458,11 @@ class World:
             self.trace.append((proc.pid, n, op, rel, nbytes, "CRASH"))
             self.kill_current(proc)
             raise SimCrash(f"crash before event {n} ({op} {rel})")
+        if kind == "realkill":
+            # crash-model validation only (selftest): die for real, right here
+            if n != f.at:
+                return None
+            os._exit(137)
         if kind in ("torn_write", "enospc", "eio_write"):
             # fires at the first raw write at or after event f.at
             if op != "write":
@@ -544,42 +565,41 @@ class World:
 
     def _wrap2(self, raw, result, mode, buffering, encoding, errors, newline,
                binary, updating, creating, writing, appending, reading):
-        if True:
-            line_buffering = False
-            if buffering == 1:
-                buffering = -1
-                line_buffering = True
-            if buffering < 0:
-                buffering = self.read_buf if (reading and not updating) else self.io_buf
-            if buffering == 0:
-                if binary:
-                    return result
-                raise ValueError("can't have unbuffered text I/O")
-            raw._under_buffer = True
-            if updating:
-                buffer = io.BufferedRandom(raw, buffering)
-            elif creating or writing or appending:
-                buffer = io.BufferedWriter(raw, buffering)
-            elif reading:
-                if self.record_reads and binary:
-                    log = self.read_logs.setdefault(raw._rel, [])
-                    buffer = RecordingBufferedReader(raw, buffering, log)
-                else:
-                    buffer = io.BufferedReader(raw, buffering)
-            else:
-                raise ValueError("unknown mode: %r" % mode)
-            result = buffer
+        line_buffering = False
+        if buffering == 1:
+            buffering = -1
+            line_buffering = True
+        if buffering < 0:
+            buffering = self.read_buf if (reading and not updating) else self.io_buf
+        if buffering == 0:
             if binary:
                 return result
-            encoding = io.text_encoding(encoding)
-            textio = io.TextIOWrapper(buffer, encoding, errors, newline, line_buffering)
-            result = textio
-            textio.mode = mode
-            try:
-                textio._CHUNK_SIZE = max(1, self.text_chunk)
-            except (AttributeError, ValueError):
-                pass
+            raise ValueError("can't have unbuffered text I/O")
+        raw._under_buffer = True
+        if updating:
+            buffer = io.BufferedRandom(raw, buffering)
+        elif creating or writing or appending:
+            buffer = io.BufferedWriter(raw, buffering)
+        elif reading:
+            if self.record_reads and binary:
+                log = self.read_logs.setdefault(raw._rel, [])
+                buffer = RecordingBufferedReader(raw, buffering, log)
+            else:
+                buffer = io.BufferedReader(raw, buffering)
+        else:
+            raise ValueError("unknown mode: %r" % mode)
+        result = buffer
+        if binary:
             return result
+        encoding = io.text_encoding(encoding)
+        textio = io.TextIOWrapper(buffer, encoding, errors, newline, line_buffering)
+        result = textio
+        textio.mode = mode
+        try:
+            textio._CHUNK_SIZE = max(1, self.text_chunk)
+        except (AttributeError, ValueError):
+            pass
+        return result
 
     # -- path operations ---------------------------------------------------
     def sim_stat(self, path, *a, **kw):
@@ -709,6 +729,8 @@ class World:
         time.time_ns = self.sim_time_ns
         self._old_unraisable = sys.unraisablehook
         sys.unraisablehook = self._unraisable
+        self._old_tmpnames = tempfile._name_sequence
+        tempfile._name_sequence = _SeededNames(self.root)
 
     def uninstall(self):
         global _ACTIVE
@@ -727,6 +749,7 @@ class World:
         time.time = _REAL["time"]
         time.time_ns = _REAL["time_ns"]
         sys.unraisablehook = self._old_unraisable
+        tempfile._name_sequence = self._old_tmpnames
         _ACTIVE = None
 
     def _unraisable(self, u):
